@@ -36,6 +36,11 @@ func checkC04(c *Ctx) {
 		_, nv := sub.lostWrite("LOSTWRITE", sub.AllFuncs(), "")
 		c.Control("LOSTWRITE", nv == 1, "fixture.C04LostWrite stores into the copy of a struct-valued range variable")
 	}
+	c.Decides("CMP: SortedTips, which assigns the bit positions, orders the tips by a strict comparison of their plain names: two distinct names never tie (a tie would let the traversal order of each tree decide and equal splits would get different bit sets)")
+	if fi := c.Func("tree", "Tree", "SortedTips"); fi != nil {
+		c.cmpTotal("CMP", []*FuncInfo{fi}, "branches of different trees on the same taxa compare equal exactly when they define the same split")
+	}
+	c.Floor("CMP", 1)
 	c.Floor("LOSTWRITE", 1)
 	c.Floor("NET", 1)
 	c.Floor("PRESENT", 3)
